@@ -82,11 +82,11 @@ Fixpoint selected (req : request) (ps : list policy) : option (list policy) :=
 Definition apply_own (req : request) (p : policy) (t : table) : table :=
   fold_left (fun t e => if requested req (fst e) then tset (fst e) (snd e) t else t) (p_apply p) t.
 
-(* addresses of the policy replace the parent's pool; the receiving address is
-   never handed out *)
+(* addresses of the policy replace the parent's pool (which addresses these
+   are is the subject of property C02, Model/DhcpAddrsSpec.v) *)
 Definition own_addr (req : request) (p : policy) (a : option (N -> bool)) : option (N -> bool) :=
   match p_addr p with
-  | Some f => Some (fun x => f x && negb (x =? r_serverip req))
+  | Some f => Some f
   | None => a
   end.
 
